@@ -38,8 +38,15 @@ func (e *Engine) load(patterns []string) error {
 	if len(errs) > 0 {
 		return fmt.Errorf("type errors in /repo: %s", strings.Join(errs, "; "))
 	}
-	// contract files
-	for _, p := range pkgs {
+	// contract files of every loaded /repo package (roots and dependencies)
+	var all []*packages.Package
+	for path, p := range e.pkgs {
+		if strings.HasPrefix(path, "honnef.co/go/tools") {
+			all = append(all, p)
+		}
+	}
+	sort.Slice(all, func(i, j int) bool { return all[i].PkgPath < all[j].PkgPath })
+	for _, p := range all {
 		if len(p.GoFiles) == 0 {
 			continue
 		}
@@ -947,7 +954,13 @@ func (u *Unit) loopFrame(ls *LoopSpec, n int, pre, cur *State, mods loopMods, en
 	}
 	penv := *env
 	penv.st = pre
-	allowed := u.allowedTargets(ls.Modifies, &penv, pos)
+	var targets []string
+	for _, m := range ls.Modifies {
+		if m != "fresh" { // `fresh`: only objects allocated inside the loop are written
+			targets = append(targets, m)
+		}
+	}
+	allowed := u.allowedTargets(targets, &penv, pos)
 	if _, any := allowed["*"]; any {
 		return
 	}
